@@ -44,6 +44,12 @@ theorem C06_header_compressed_as_written (c u : BitVec 32) (sc : Bool) (hc : c.t
   simp only [BitVec.ofNat_toNat, BitVec.setWidth_eq]
   rfl
 
+/-- the header encoders as written read exactly the length fields and the self-contained flag of the header they are given -/
+theorem C06_header_encoders_read :
+    Gen.GoFn.encodeHeaderUncompressed_reads = ["header_UncompressedPayloadLength", "header_IsSelfContained"] ∧
+    Gen.GoFn.encodeHeaderCompressed_reads =
+      ["header_CompressedPayloadLength", "header_UncompressedPayloadLength", "header_IsSelfContained"] := ⟨rfl, rfl⟩
+
 /-- non-vacuity: the regenerated code evaluated on concrete values -/
 example : (Gen.GoFn.encodeHeaderUncompressed 3#32 true).1 = 131075#64 := by decide
 example : Gen.GoFn.ChecksumKoopman 131075#64 3#64 = crc24 131075#64 3 := by decide +kernel
